@@ -24,7 +24,7 @@ from vt.oracles import csvwdate as CD
 ID = 'C16'
 TIERS = {
     'quick': dict(shards=16, tables=400, grid_share=1, watchdog_s=900),
-    'thorough': dict(shards=16, tables=8000, grid_share=3, watchdog_s=7000),
+    'thorough': dict(shards=16, tables=30000, grid_share=3, watchdog_s=5000),
 }
 RULE = ('part A: the full grid of %d date/date-time patterns (d dd M MM yy yyyy x separators - / . space x 3 field orders, '
         'x time parts HH mm ss S SS SSS with : or . and space/T joins) x 4 instants, one CSV + metadata + csv2pandas load '
@@ -40,7 +40,7 @@ ASSUMPTIONS = [
 REQUIRED_MONITORS = ['grid:patterns_loaded', 'contract:csvw_date_format:judged', 'tables:loaded', 'cells:compared',
                      'reach:to_pandas_read_csv_args', 'reach:process_dialect']
 REQUIRED_CLASSES = ['delimiter=,', 'delimiter=|', 'delimiter=tab', 'delimiter=;', 'encoding=utf-8', 'encoding=latin-1',
-                    'encoding=utf-16', 'header=1', 'header=0', 'bool=true|false', 'bool=Y|N', 'bool=1|0',
+                    'encoding=utf-16', 'header=1', 'header=0', 'titles=1', 'bool=true|false', 'bool=Y|N', 'bool=1|0',
                     'type=boolean', 'type=integer', 'type=number', 'type=string', 'type=date', 'type=datetime']
 _counter = collections.Counter()
 _installed = False
@@ -189,6 +189,13 @@ def gen_table(rng, i):
             fmt = rng.choice(['dd/MM/yyyy HH:mm:ss', 'yyyy-MM-ddTHH:mm:ss', 'yyyy-MM-dd HH:mm', 'd.M.yy HH.mm.ss'])
         cols.append({'name': rng.choice(['a', 'b', 'naïve', 'x y', 'Col', 'id', 'when', 'ß']) + str(j), 'type': t, 'values': vals,
                      'format': fmt, 'bool': rng.choice([spell, spell, 'true|false', 'Y|N', '1|0', 'yes|no', 'T|F']) if t == 'boolean' else None})
+    if rng.random() < 0.3:
+        # CSVW "titles": what the file's header line calls a column, while the frame is to use "name"
+        how = rng.choice(['str', 'list', 'dict'])
+        for j, c in enumerate(cols):
+            if j == 0 or rng.random() < 0.6:
+                c['title'] = 'Title of %s' % c['name']
+                c['titles_as'] = how
     return {'cols': cols, 'nrows': n, 'delimiter': [',', '|', '\t', ';'][i % 4], 'encoding': ['utf-8', 'latin-1', 'utf-16'][(i // 4) % 3],
             'header': (i // 2) % 2 == 0 or rng.random() < 0.5, 'bool': spell,
             'header_decl': ['both', 'header', 'count'][(i // 5) % 3]}
@@ -223,8 +230,9 @@ def run_table_case(ctx, case):
         for c in t['cols']:
             c['name'] = c['name'].encode('latin-1', 'replace').decode('latin-1')
     names = [c['name'] for c in t['cols']]
+    headline = [c.get('title') or c['name'] for c in t['cols']]
     try:
-        path = write_table(d, 'tab', names if t['header'] else None, rows, t['delimiter'], enc)
+        path = write_table(d, 'tab', headline if t['header'] else None, rows, t['delimiter'], enc)
     except UnicodeEncodeError:
         return
     columns = []
@@ -234,7 +242,10 @@ def run_table_case(ctx, case):
             dt = {'base': 'boolean', 'format': c.get('bool') or t['bool']}
         elif c['format']:
             dt = {'base': c['type'], 'format': c['format']}
-        columns.append({'name': c['name'], 'datatype': dt})
+        col = {'name': c['name'], 'datatype': dt}
+        if c.get('title'):
+            col['titles'] = {'str': c['title'], 'list': [c['title'], 'another title'], 'dict': {'en': [c['title']]}}[c['titles_as']]
+        columns.append(col)
     dialect = {'delimiter': t['delimiter'], 'encoding': enc}
     if not t['header']:
         how = t.get('header_decl', 'both')
@@ -245,7 +256,7 @@ def run_table_case(ctx, case):
     mdpath = write_md(d, 'tab', columns, dialect)
     nonnull = any(v is not None for c in t['cols'] for v in c['values'])
     cls = [('part=table',), ('delimiter=' + ('tab' if t['delimiter'] == '\t' else t['delimiter']),), ('encoding=' + enc,),
-           ('header=%d' % t['header'],), ('bool=' + t['bool'],),
+           ('header=%d' % t['header'],), ('bool=' + t['bool'],), ('titles=%d' % any(c.get('title') for c in t['cols']),),
            ('n_bool_spellings=%d' % len(set(c.get('bool') for c in t['cols'] if c['type'] == 'boolean')),)] + [('type=' + c['type'],) for c in t['cols']]
     rec.case(case, nontrivial=nonnull, cls=cls)
     mech0 = {'header': t['header'], 'header_decl': None if t['header'] else t.get('header_decl', 'both')}
